@@ -756,5 +756,139 @@ class Frequency(common.Suite):
         return "p>=1e-3" if ps and min(ps) >= 1e-3 else "p<1e-3"
 
 
+class RunDueness(common.Suite):
+    """the scheduling clauses observed through the public run()/srun()/irun() entry points over SEVERAL consecutive
+    calls (so that a schedule kept relative to the start of a run, a cached due-list, … shows): probe moves record the
+    step at which they are attempted; genuine PCG64 randomness; oracle only"""
+
+    name = "run-dueness"
+
+    def cases(self, rng, tier):
+        n = 120 if tier == "quick" else 2500
+        for _ in range(n):
+            k = rng.randint(1, 5)
+            cyc = rng.randint(1, 8)
+            table = []
+            left = cyc
+            for j in range(k):
+                mn = rng.randint(0, min(2, left)) if rng.random() < 0.5 else 0
+                left -= mn
+                table.append({"name": f"m{j}", "interval": rng.choice([1, 1, 2, 3, 4, 5, 7]),
+                              "weight": rng.choice([0.0, 0.0, 1.0, 0.5, 2.0, 3.0]), "min": mn})
+            if all(t["weight"] == 0.0 for t in table):
+                table[0]["weight"] = 1.0
+            for t in table:  # a due set whose weights are all zero is outside the property's quantifier
+                if t["weight"] == 0.0 and t["min"] == 0 and rng.random() < 0.5:
+                    t["weight"] = 1.0
+            segs = [rng.randint(0, 7) for _ in range(rng.randint(1, 4))]
+            yield {"cycles": cyc, "table": table, "segs": segs, "seed": rng.randrange(2**31),
+                   "entry": rng.choice(["run", "srun", "irun"]), "roundtrip": rng.random() < 0.35}
+
+    def real(self, case):
+        import warnings
+
+        import quansino.mc  # noqa: F401
+        from ase import Atoms
+        from quansino.mc.core import MonteCarlo
+
+        from quansino.registry import register_class
+
+        log = []
+        sim = [None]
+
+        class Probe:
+            def __init__(self, name, _sim=None):
+                self.name = name
+
+            def __call__(self, context):
+                log.append((self.name, int(sim[0].step_count)))
+                return False
+
+            def on_atoms_changed(self, a, r):
+                pass
+
+            def on_cell_changed(self, c):
+                pass
+
+            def to_dict(self):
+                return {"name": "VerifProbeMove", "kwargs": {"name": self.name}}
+
+            @classmethod
+            def from_dict(cls, data):
+                return cls(**data["kwargs"])
+
+        class ProbeCrit(_Crit):
+            def to_dict(self):
+                return {"name": "VerifProbeCriteria"}
+
+            @classmethod
+            def from_dict(cls, data):
+                return cls()
+
+        register_class(Probe, "VerifProbeMove")
+        register_class(ProbeCrit, "VerifProbeCriteria")
+
+        with warnings.catch_warnings():
+            warnings.simplefilter("ignore")
+            mc = MonteCarlo(Atoms("H"), max_cycles=case["cycles"], seed=case["seed"])
+            for t in case["table"]:
+                mc.add_move(Probe(t["name"], sim), criteria=ProbeCrit(), name=t["name"], interval=t["interval"],
+                            probability=t["weight"], minimum_count=t["min"])
+            if case.get("roundtrip"):
+                # the schedule must survive the documented dictionary round trip (e.g. a restart)
+                from ase.io.jsonio import decode, encode
+
+                mc = MonteCarlo.from_dict(decode(encode(mc.to_dict())))
+            sim[0] = mc
+            skipped = []
+            for n in case["segs"]:
+                try:
+                    if case["entry"] == "run":
+                        mc.run(n)
+                    elif case["entry"] == "srun":
+                        for _ in mc.srun(n):
+                            pass
+                    else:
+                        for st in mc.irun(n):
+                            for _ in st:
+                                pass
+                except ValueError as ex:  # numpy: probabilities contain NaN (all due weights zero): outside the quantifier
+                    skipped.append(str(ex)[:60])
+                    break
+        return {"log": log, "steps": int(mc.step_count), "skipped": skipped}
+
+    def oracle(self, case, obs):
+        if "exception" in obs:
+            return [("run-dueness:exception:" + obs["exception"], obs["message"])]
+        if obs["skipped"]:
+            return []
+        out = []
+        tab = {t["name"]: t for t in case["table"]}
+        per_step = {}
+        for name, st in obs["log"]:
+            per_step.setdefault(st, []).append(name)
+            if st % tab[name]["interval"] != 0:
+                out.append(("run-dueness:not-due", f"{name} (interval {tab[name]['interval']}) attempted at step {st}; segments {case['segs']}"))
+        for st in range(sum(case["segs"])):
+            due = [t for t in case["table"] if st % t["interval"] == 0]
+            got = per_step.get(st, [])
+            if not due:
+                if got:
+                    out.append(("run-dueness:attempt-without-due-move", f"step {st}: {got}"))
+                continue
+            if len(got) != case["cycles"]:
+                out.append(("run-dueness:cycle-count", f"step {st}: {len(got)} attempts for {case['cycles']} cycles"))
+            for t in due:
+                c = got.count(t["name"])
+                if c < t["min"]:
+                    out.append(("run-dueness:min-count", f"step {st}: {t['name']} attempted {c} < {t['min']} times"))
+                if t["weight"] == 0.0 and c > t["min"]:
+                    out.append(("run-dueness:zero-weight-chosen", f"step {st}: weight-0 move {t['name']} attempted {c} > min {t['min']}"))
+        return out[:6]
+
+    def classify(self, case, obs):
+        return f"segs={len(case['segs'])}:{case['entry']}:{'restored' if case.get('roundtrip') else 'fresh'}"
+
+
 def suites(tier):
-    return [YieldMoves(), Step(), AddMove(), RngTwin(), Frequency()]
+    return [YieldMoves(), Step(), AddMove(), RngTwin(), Frequency(), RunDueness()]
